@@ -148,3 +148,35 @@ Proof.
   unfold run_once in Hin. destruct (run_groups_spec s (s_groups s) (s_cloud s) Hn2 name r' Hin) as (g & a & Hg & -> & Hf & Hc & _).
   rewrite (find_group_unique s g Hn1 Hg). rewrite Hc. apply Hall; assumption.
 Qed.
+
+(* ---------- how run_once ends ---------- *)
+Lemma run_groups_ends s : forall gs cloud,
+  let res := run_groups s gs cloud in
+  (snd res = OutOk /\ length (fst res) = length gs) \/
+  (snd res = OutErr /\ (length (fst res) < length gs)%nat) \/
+  (snd res = OutFatal /\ exists nr, In nr (fst res) /\ r_out (snd nr) = OutFatal) \/
+  (snd res = OutExit /\ exists nr, In nr (fst res) /\ r_out (snd nr) = OutExit).
+Proof.
+  induction gs as [|g rest IH]; intros cloud; simpl; [left; auto|].
+  destruct (find_asg cloud (o_asg (gi_opts g))) as [a|]; [|right; left; simpl; split; [reflexivity | lia]].
+  destruct (effective_min_max (gi_opts g) a) as [mn mx].
+  set (r := scan_group _ _ _ _ _ _ _ _).
+  assert (Hcont : forall hd,
+     let res := (let '(rs, out) := run_groups s rest (match r_asg r with Some a' => replace_asg cloud a' | None => cloud end) in (hd :: rs, out)) in
+     (snd res = OutOk /\ length (fst res) = S (length rest)) \/
+     (snd res = OutErr /\ (length (fst res) < S (length rest))%nat) \/
+     (snd res = OutFatal /\ exists nr, In nr (fst res) /\ r_out (snd nr) = OutFatal) \/
+     (snd res = OutExit /\ exists nr, In nr (fst res) /\ r_out (snd nr) = OutExit)).
+  { intros hd. specialize (IH (match r_asg r with Some a' => replace_asg cloud a' | None => cloud end)). cbv zeta in IH.
+    destruct (run_groups s rest _) as [rs out]. simpl in *.
+    destruct IH as [[H1 H2]|[[H1 H2]|[[H1 [nr [H2 H3]]]|[H1 [nr [H2 H3]]]]]].
+    - left. split; [exact H1 | rewrite H2; reflexivity].
+    - right; left. split; [exact H1 | lia].
+    - right; right; left. split; [exact H1|]. exists nr. auto.
+    - right; right; right. split; [exact H1|]. exists nr. auto. }
+  destruct (r_out r) eqn:Eo.
+  - apply Hcont.
+  - apply Hcont.
+  - right; right; left. simpl. split; [reflexivity|]. eexists. split; [left; reflexivity | reflexivity].
+  - right; right; right. simpl. split; [reflexivity|]. eexists. split; [left; reflexivity | reflexivity].
+Qed.
